@@ -85,8 +85,9 @@ pub struct Out {
 }
 
 /// The address codec the chain is built with. `Std` is cosmwasm_std's MockApi (a dependency, not the code under
-/// test), which accepts only the canonical spelling; the crate's own bech32 codecs accept every string that decodes
-/// under the prefix and normalise it (C18 decides the codec itself; here a reference on the bech32 crate suffices).
+/// test); `Bech32`/`Bech32m` are the crate's own codecs. All of them accept exactly the normalised spelling of an
+/// address and return it unchanged (C18 decides the codecs themselves; here a reference on the bech32 crate suffices).
+/// Should a codec ever accept another spelling, the model's `norm` is where that would be described.
 #[derive(Clone, Copy, Debug, PartialEq, Eq, Default, serde::Serialize, serde::Deserialize)]
 pub enum ApiKind {
     #[default]
@@ -120,7 +121,8 @@ impl ApiKind {
     pub fn norm(&self, s: &str) -> Option<String> {
         match self {
             ApiKind::Std => MockApi::default().addr_validate(s).ok().filter(|a| a.as_str() == s).map(|a| a.to_string()),
-            _ => self.humanize(&self.canonicalize(s)?),
+            // the crate's codecs accept what decodes under the prefix and is already the normalised spelling
+            _ => self.humanize(&self.canonicalize(s)?).filter(|n| n == s),
         }
     }
 
@@ -225,6 +227,17 @@ fn ok_str<T: std::fmt::Debug>(v: T) -> String {
 impl ChainM {
     pub fn new(block: (u64, u64, String)) -> Self {
         ChainM { st: State { bank: Ledger::default(), contracts: BTreeMap::new() }, codes: BTreeMap::new(), block, api: ApiKind::Std }
+    }
+
+    /// `api.norm`, noting for coverage when another spelling of a decodable address is accepted or rejected.
+    fn norm_noted(&self, s: &str, out: &mut Out) -> Option<String> {
+        let n = self.api.norm(s);
+        match &n {
+            Some(a) if a != s => out.notes.push("respelled-address-accepted"),
+            None if self.api.canonicalize(s).is_some() || self.api.canonicalize(&s.to_lowercase()).is_some() => out.notes.push("respelled-address-rejected"),
+            _ => {}
+        }
+        n
     }
 
     pub fn next_code_id(&self) -> u64 {
@@ -384,14 +397,10 @@ impl ChainM {
                 Ok(custom_exec_answer(sender, *tag))
             }
             Msg::Exec { addr, script, funds } => {
-                let given = addr;
-                let addr = &match self.api.norm(addr) {
+                let addr = &match self.norm_noted(addr, out) {
                     Some(a) => a,
                     None => return Err(Why::InvalidAddress),
                 };
-                if addr != given {
-                    out.notes.push(if funds.is_empty() { "alt-spelling-accepted/execute" } else { "alt-spelling-accepted/execute-with-funds" });
-                }
                 if !funds.is_empty() {
                     let c = to_coins(funds);
                     if !self.st.bank.send(sender, addr, &c) {
@@ -436,14 +445,10 @@ impl ChainM {
                 Ok(Resp { events: r.events, data: Some(wrap_instantiate(&addr, r.data)) })
             }
             Msg::Migrate { addr, code_id, script } => {
-                let given = addr;
-                let addr = &match self.api.norm(addr) {
+                let addr = &match self.norm_noted(addr, out) {
                     Some(a) => a,
                     None => return Err(Why::InvalidAddress),
                 };
-                if addr != given {
-                    out.notes.push("alt-spelling-accepted/migrate");
-                }
                 if !self.codes.contains_key(code_id) {
                     return Err(Why::NoSuchCode);
                 }
@@ -461,15 +466,11 @@ impl ChainM {
                 Ok(Resp { events: r.events, data: wrap_exec(r.data) })
             }
             Msg::UpdateAdmin { addr, admin } => {
-                if self.api.norm(addr).map_or(false, |a| &a != addr) || self.api.norm(admin).map_or(false, |a| &a != admin) {
-                    out.notes.push("alt-spelling-accepted/update-admin");
-                }
+                let _ = (self.norm_noted(addr, out), self.norm_noted(admin, out));
                 self.set_admin(sender, addr, Some(admin.clone()))
             }
             Msg::ClearAdmin { addr } => {
-                if self.api.norm(addr).map_or(false, |a| &a != addr) {
-                    out.notes.push("alt-spelling-accepted/clear-admin");
-                }
+                let _ = self.norm_noted(addr, out);
                 self.set_admin(sender, addr, None)
             }
             Msg::Opaque(_) => panic!("harness: opaque messages are not modelled"),
